@@ -42,6 +42,11 @@ def _app_script(rng, tag):
     return pace, [["recv_slow_until_end", rng.choice([1, 3])], resp]
 
 
+def _start_first(tag):
+    return [["send", {"type": "http.response.start", "status": 200, "headers": [(b"x-tag", b"%d" % tag)]}], ["recv_until_end"],
+            ["send", {"type": "http.response.body", "body": b"ok%d" % tag, "more_body": False}]]
+
+
 def _case_h1(rng, tier, n, exhaustive_split=None):
     version = rng.choice(["1.1", "1.1", "1.1", "1.0"])
     nreq = 1 if version == "1.0" else rng.choice([1, 1, 2, 3, 4])
@@ -86,6 +91,10 @@ def _case_h1(rng, tier, n, exhaustive_split=None):
             req["headers"] = list(req["headers"]) + extra
             req["ows"] = list(req.get("ows") or []) + [b" "] * len(extra)
         pace, script = _app_script(rng, tag)
+        if i == nreq - 1 and len(req["body"]) > 0 and rng.random() < 0.15:
+            # an application that starts its response first and reads its request afterwards (the last request of the connection: HTTP/1
+            # gives up the connection after such a response): every byte of the body is still the application's to receive
+            pace, script = "eager", _start_first(tag)
         by_tag[str(tag)] = script
         paces.append(pace)
         data = G.serialize_h1(req)
@@ -150,6 +159,8 @@ def _case_h2(rng, tier, n):
             req["authority"] = names_case(req["authority"])
         req["complete"] = True
         pace, script = _app_script(rng, tag)
+        if len(req["body"]) > 0 and rng.random() < 0.15:
+            pace, script = "eager", _start_first(tag)
         by_tag[str(tag)] = script
         paces.append(pace)
         reqs.append(req)
